@@ -171,7 +171,9 @@ func (s *Service) parseAddress(address string) error {
 
 	switch s.protocol {
 	case "unix":
-		break
+		if s.address == "" {
+			return fmt.Errorf("Empty unix address")
+		}
 	case "tcp":
 		break
 
@@ -236,7 +238,9 @@ func (s *Service) Bind(ctx context.Context, address string) error {
 	}
 	s.mutex.Unlock()
 
-	s.parseAddress(address)
+	if err := s.parseAddress(address); err != nil {
+		return err
+	}
 
 	err := s.setListener(ctx)
 	if err != nil {
